@@ -21,6 +21,7 @@ NMS = 'utils::nms::nms'
 
 
 def run(ctx):
+    _ownership(ctx)
     F = ctx.F
     b = ctx.anchor('R14.1', NMS)
     if b is None:
@@ -250,3 +251,10 @@ def run(ctx):
             ctx.check(len(cs) >= 2 or not inter.find_calls('get_cached_vertices'), R, inter,
                       'intersection-works-on-fresh-clones', '', 'intersection() reads cached vertices of its arguments '
                       'directly instead of fresh clones')
+
+
+def _ownership(ctx):
+    """who-may-write rows of rules/ownership.py that concern this property"""
+    import ownership
+    ctx.rule('R14.6', 'who-may-write: state this property depends on is changed only by its owners (rules/ownership.py)')
+    ctx.floor('R14.6', ownership.run(ctx, 'R14.6', 'C14'), 2)
